@@ -135,7 +135,7 @@ func verifPrintCheck(code string, inputs []verifInput, printer int, host verifHo
 // VerifHarness_PrintFamilies: the generated program families through both printers: the statement x position
 // product (with host triggers, a template and singletons in scope) and the nesting family of depth <= D.
 func VerifHarness_PrintFamilies() {
-	fam := errors.VerifNdIntRange("family", 0, 1)
+	fam := errors.VerifNdIntRange("family", 0, 2)
 	printer := errors.VerifNdIntRange("printer", 0, 1)
 	errors.VerifTag("printer", []string{"parsed", "analysed"}[printer])
 	if fam == 0 {
@@ -150,6 +150,19 @@ func VerifHarness_PrintFamilies() {
 			return // print order of a concurrently running function is not comparable between two runs
 		}
 		verifPrintCheck(vsPrelude+vsReplace(vsContexts[ci], vsStatements[si]), nil, printer, verifHost{})
+		return
+	}
+	if fam == 2 {
+		ei := errors.VerifNdIntRange("expr", 0, len(veExprs)-1)
+		ci := errors.VerifNdIntRange("ctx", 0, len(veContexts)-1)
+		errors.VerifTag("expr", veExprs[ei])
+		errors.VerifTag("ctx", fmt.Sprint(ci))
+		code := vePreFns + "fn main() {\n" + veLocals + veSubst(veContexts[ci], veExprs[ei]) + "  println(\"end\", lst.len(), obj.f, x);\n}\n"
+		if ci == 8 {
+			code = vePreFns + "fn ret() -> int {\n" + veLocals + "  return " + veExprs[ei] + ";\n}\nfn main() {\n" + veContexts[ci] + "}\n"
+		}
+		a := errors.VerifNdInt64("A")
+		verifPrintCheck(code, []verifInput{{name: "A", kind: 'i', i: a}, {name: "T", kind: 'b', b: true}}, printer, verifHost{})
 		return
 	}
 	D := errors.VerifParam("D", 1)
@@ -304,10 +317,28 @@ func verifPrintAnalysedLiteral(content string) {
 
 // VerifHarness_Optimizer: Optimize(p) behaves exactly like p (VM), on the template corpus and the nesting family.
 func VerifHarness_Optimizer() {
-	src := errors.VerifNdIntRange("source", 0, 1)
+	src := errors.VerifNdIntRange("source", 0, 3)
 	code := ""
 	var inputs []verifInput
-	if src == 0 {
+	host := verifHost{}
+	if src == 2 {
+		ei := errors.VerifNdIntRange("expr", 0, len(veExprs)-1)
+		ci := errors.VerifNdIntRange("ctx", 0, len(veContexts)-1)
+		errors.VerifTag("program", fmt.Sprintf("expr %s @%d", veExprs[ei], ci))
+		code = vePreFns + "fn main() {\n" + veLocals + veSubst(veContexts[ci], veExprs[ei]) + "  println(\"end\", lst.len(), obj.f, x);\n}\n"
+		if ci == 8 {
+			code = vePreFns + "fn ret() -> int {\n" + veLocals + "  return " + veExprs[ei] + ";\n}\nfn main() {\n" + veContexts[ci] + "}\n"
+		}
+		inputs = []verifInput{{name: "A", kind: 'i', i: errors.VerifNdInt64("A")}, {name: "T", kind: 'b', b: true}}
+	} else if src == 3 {
+		si := errors.VerifNdIntRange("stmt", 0, len(vsStatements)-1)
+		ci := errors.VerifNdIntRange("ctx", 0, len(vsContexts)-1)
+		errors.VerifTag("program", fmt.Sprintf("stmt %s @%d", vsStatements[si], ci))
+		if (vsStatements[si] == "continue;" && ci == 5) || verifHasPrefix(vsStatements[si], "spawn ") {
+			return
+		}
+		code = vsPrelude + vsReplace(vsContexts[ci], vsStatements[si])
+	} else if src == 0 {
 		corpus := verifPrintCorpus()
 		t := corpus[errors.VerifNdIntRange("template", 0, len(corpus)-1)]
 		errors.VerifTag("program", t.name)
@@ -335,6 +366,7 @@ func VerifHarness_Optimizer() {
 		errors.VerifAssume(a <= 3)
 		inputs = []verifInput{{name: "P", kind: 'b', b: p}, {name: "A", kind: 'i', i: a}}
 	}
+	_ = host
 	an := verifAnalyze(code, nil, inputs, true)
 	if an.hasError {
 		return
